@@ -47,6 +47,17 @@ def down(ctx):
     if not ob.need(len(cmdv) == 1, "state issuing sub-commands not found"):
         return
     st = cmdv[0].state
+    # every state that can offer a sub-command counts the ones accepted there: a sub-command offered (and possibly accepted) in another state - e.g. presented
+    # straight from the idle state to save a cycle - is issued again by the splitting state, whose counter starts from 0
+    for l in v.fsm_leaves(f):
+        if l.kind == "assign" and key(l.target) == "port_to.cmd.valid" and not is0(l.value) and l.state != st:
+            counted = [m_ for m_ in v.fsm_leaves(f, l.state) if m_.kind == "nextvalue" and "port_to.cmd.ready" in v.guard_keys(m_, False)
+                       and lin_eq(m_.value, Op("+", (m_.target, Const(1))))]
+            ob.instance("sub-command offered outside the splitting state", {"state": l.state, "leaf": str(l)[:120], "counted there": bool(counted)})
+            if not counted:
+                ob.refute("offer-uncounted:%s" % l.state, "state %s offers a sub-command on port_to.cmd (%s) but no counter advances there when it is accepted: with port_to.cmd.ready "
+                          "already high that sub-command is taken, and the splitting state %s issues it again (its counter starts from 0) - one access too many, data "
+                          "shifted by one beat" % (l.state, str(l)[:100], st), l.loc)
     addr = [l for l in v.fsm_leaves(f, st) if l.kind == "assign" and key(l.target) == "port_to.cmd.addr"]
     if not ob.need(len(addr) == 1, "sub-command address not found"):
         return
